@@ -53,6 +53,17 @@ for _p in sorted(_glob.glob(_os.path.join(_os.path.dirname(_os.path.abspath(__fi
 
 # re-entrancy monitor (DESIGN.md 4, "schedules"): every C check gets a configuration "mt" built with -fsanitize=thread, in which the
 # anchored routines are run alone and then from four threads at once on private data (harness/vf_mt.h). C17-C19 name theirs in the spec.
+_MT_TECH = '; re-entrancy monitor: every anchored routine alone, then from four threads at once on private data, digests compared, under ThreadSanitizer'
+_MT_ASSUME = ('configuration mt: the library is built with -fsanitize=thread; work items are pure functions of their random stream and are first run alone '
+              '(reference digests, and twice to show they are deterministic), then concurrently from four threads on private objects; a data race report or a '
+              'digest that differs from the single-threaded one is a violation (hidden shared state: function-local statics, caches, globals)')
+
+
+def _note_mt(spec):
+    spec['technique'] = spec.get('technique', '') + _MT_TECH
+    spec['assumptions'] = list(spec.get('assumptions', [])) + [_MT_ASSUME]
+
+
 _MT_READY = [1, 2, 3, 4, 5, 6, 7, 8, 9, 10, 11, 12, 13, 14, 15, 16]
 
 
@@ -62,6 +73,7 @@ def _with_mt(spec, n, extra=()):
          [dict(c, harness=['h_mt_all.c'], hflags=['-DVF_MT=%d' % n], flavour='tsan', nworkers=1) for c in extra]
     spec['configs'] = lambda tier: mt + base(tier)
     spec['parallel_configs'] = spec.get('parallel_configs', 1) + len(mt)
+    _note_mt(spec)
 
 
 for _n in _MT_READY:
@@ -74,11 +86,21 @@ for _n in _MT_READY:
 _FENV = [1, 2, 3, 4, 5, 6, 7, 17, 18]
 
 
+def _note_fenv(spec):
+    spec['technique'] = spec.get('technique', '') + '; every case also under the directed rounding modes (configuration fenv)'
+    spec['assumptions'] = list(spec.get('assumptions', [])) + ['configuration fenv: each case runs under one of FE_DOWNWARD / FE_TOWARDZERO / FE_UPWARD / FE_TONEAREST '
+                                                               '(a function of seed and case number); results that are integers, bytes, links or sequences must not depend on it']
+
+
 def _with_fenv(spec):
     base = spec['configs'] if 'configs' in spec else (lambda tier: [dict(name='default')])
     spec['configs'] = lambda tier: base(tier) + [dict(name='fenv', hflags=['-DVF_FENV_ROTATE'], nworkers=4, of=8)]
     spec['parallel_configs'] = spec.get('parallel_configs', 1) + 1
+    _note_fenv(spec)
 
 
 for _n in _FENV:
     _with_fenv(PROPS['C%02d' % _n])
+for _n in (17, 18, 19):
+    _note_mt(PROPS['C%02d' % _n])
+_note_fenv(PROPS['C19'])
